@@ -4,4 +4,4 @@ Extraction Language OCaml.
 Extraction "model.ml" users_l chans_l hist_l set_l baninfo_l members_l conns_l set_of_list
   tokenize_x command_of_message_x to_string_with_source_x wild_match_x glob_x normalize_mask_x
   target_type_x step_x world_init_x validate_username_x validate_channel_x validate_source_x
-  validate_server_x validate_server_mask_x validate_prefixed_channel_x cmd_error_reply_x config_accept_x valid_hash_x ka_run_x feed_x.
+  validate_server_x validate_server_mask_x validate_prefixed_channel_x cmd_error_reply_x config_accept_x valid_hash_x ka_run_x feed_x encode_x.
